@@ -239,6 +239,13 @@ def _collision_guard(hist_call: ast.Call, pm, rd: ReachingDefs, prov: Prov):
     v = d.value
     if v is None or isinstance(v, ast.Constant):
         return None
+    from sa.inline import Inliner
+    inl_ = getattr(prov, "_inl", None)
+    if inl_ is None:
+        # checkpoint-path variables are the rule's vocabulary: they stay names, everything else is looked through
+        keep_ = {n.id for n in ast.walk(prov.f.node) if isinstance(n, ast.Name) and isinstance(n.ctx, ast.Load) and prov.path_kind(n) and prov.path_kind(n)[0] != "mixed"}
+        inl_ = prov._inl = Inliner(prov.f.node, rd, keep=keep_)
+    v = inl_.expand(v)  # the two path sets may have been given names first
     # classify
     news = set()
     for n in ast.walk(v):
@@ -252,6 +259,10 @@ def _collision_guard(hist_call: ast.Call, pm, rd: ReachingDefs, prov: Prov):
         return ("intersection", u(test))
     if all(isinstance(c, ast.Call) and call_name(c) == "os.path.exists"
            for c in (v.values if isinstance(v, ast.BoolOp) and isinstance(v.op, ast.Or) else [None])):
+        return ("exists", u(test))
+    # any(os.path.exists(p) for p in (a, b))
+    if isinstance(v, ast.Call) and call_name(v) == "any" and len(v.args) == 1 and isinstance(v.args[0], (ast.GeneratorExp, ast.ListComp)) \
+            and isinstance(v.args[0].elt, ast.Call) and call_name(v.args[0].elt) == "os.path.exists":
         return ("exists", u(test))
     return ("other", u(test))
 
@@ -295,8 +306,15 @@ def _o4(ctx, upd, rd, prov, pm, where, rel):
             cur = nxt
         added, removed = [], []
         last_op = None
+        from sa.inline import Inliner as _InlS
+        inl_set = _InlS(upd.node, rd, keep={root.id} | {n_.id for n_ in ast.walk(upd.node) if isinstance(n_, ast.Name)
+                                                        and isinstance(n_.ctx, ast.Load) and prov.path_kind(n_) and prov.path_kind(n_)[0] != "mixed"})
+
         def set_ops(e):
-            """[(op, elts)] of a set expression: displays joined by | / + (add) and - (sub), left to right."""
+            """[(op, elts)] of a set expression: displays joined by | / + (add) and - (sub), left to right; a display that
+            was given a name first (`new_paths = {a, b}`) is looked through."""
+            if isinstance(e, ast.Name) and e.id != root.id:
+                e = inl_set.expand(e)
             if isinstance(e, (ast.Set, ast.List, ast.Tuple)):
                 return [("add", list(e.elts))]
             if isinstance(e, ast.BinOp) and isinstance(e.op, (ast.BitOr, ast.Add, ast.Sub)):
